@@ -51,6 +51,8 @@ type Workload struct {
 	Helper int `json:",omitempty"`
 	// ObjLabels: labels on the controller object's own metadata (not the pod template) - irrelevant to connectivity
 	ObjLabels map[string]string `json:",omitempty"`
+	// ExportedOwner: the controller object itself carries a controller ownerReference to an owner that is not in the input
+	ExportedOwner bool `json:",omitempty"`
 }
 type IPBlock struct {
 	CIDR   string   `json:",omitempty"`
